@@ -23,6 +23,16 @@ func c18Chain(n int, tag string) []base.SuffrageProof {
 	var prev base.State
 
 	for k := 0; k < n; k++ {
+		proofs[k] = c18Proof(k, prev, tag)
+		prev = proofs[k].State()
+	}
+
+	return proofs
+}
+
+// c18Proof builds the proof of suffrage height k on top of the state prev.
+func c18Proof(k int, prev base.State, tag string) base.SuffrageProof {
+	{
 		bh := base.Height(k * 2)
 
 		nodes := []base.SuffrageNodeStateValue{isaac.NewSuffrageNodeStateValue(common.Local(k%5), bh)}
@@ -66,11 +76,9 @@ func c18Chain(n int, tag string) []base.SuffrageProof {
 		manifest.SetStatesTree(tr.Root())
 
 		signer := common.Local(0)
-		proofs[k] = isaacblock.NewSuffrageProof(base.NewDummyBlockMapWithSign(manifest, signer.Address(), signer.Privatekey()), st, p)
-		prev = st
-	}
 
-	return proofs
+		return isaacblock.NewSuffrageProof(base.NewDummyBlockMapWithSign(manifest, signer.Address(), signer.Privatekey()), st, p)
+	}
 }
 
 func c18Run(r *simkit.Run) {
@@ -100,7 +108,9 @@ func c18Run(r *simkit.Run) {
 		localstate = chain[local].State()
 	}
 
-	fault := r.Draw("remote_fault", 0, 7) // 0,1 none; 2 other height; 3 missing; 4 below local; 5 foreign chain; 6 error; 7 duplicate of neighbour
+	// 0,1 none; 2 other height; 3 missing; 4 below local; 5 foreign chain; 6 error; 7 duplicate of neighbour;
+	// 8 forged sibling: a proof of the right height that is a valid child of the genuine predecessor, but not the parent of the genuine successor
+	fault := r.Draw("remote_fault", 0, 8)
 	faultAt := r.Choose(n)
 	lat := []time.Duration{0, time.Millisecond, 25 * time.Millisecond}
 	errRemote := errors.New("remote error")
@@ -163,6 +173,13 @@ func c18Run(r *simkit.Run) {
 						r.Fault("duplicate_of_neighbour")
 
 						return chain[k-1], true, nil
+					}
+				case 8:
+					if k > 0 && k < n-1 {
+						faultHit = true
+						r.Fault("forged_sibling_proof")
+
+						return c18Proof(k, chain[k-1].State(), "sibling"), true, nil
 					}
 				}
 			}
@@ -256,11 +273,11 @@ func c18Run(r *simkit.Run) {
 
 func init() {
 	simkit.Register(&simkit.Harness{
-		ID:   "C18",
-		Run:  c18Run,
-		Real: []string{"isaac.SuffrageStateBuilder.Build / buildBatch / prove", "isaacblock.SuffrageProof.IsValid / Prove", "util/fixedtree proofs", "util.BatchWork"},
-		Stub: []string{"remote nodes: harness functions serving a real proof chain with latency and faulty answers", "block maps are signed base.DummyBlockMap"},
-		Rule: "each run draws a remote history of 1-24 suffrage heights (thorough: 300-700 with the shipped batch size 333), a batch limit 1-8, a local state at a random height (or none), per-request latencies (arrival order inside a batch) and one kind of faulty answer or none: a proof of another height, missing, below the local state, from a foreign chain, an error, a duplicate of the neighbour. Build must end in an error or in a gap-free chain local+1..last in which every proof proves against its predecessor; any panic is a violation; a correct remote must not be refused. distinct = event-log hash",
+		ID:          "C18",
+		Run:         c18Run,
+		Real:        []string{"isaac.SuffrageStateBuilder.Build / buildBatch / prove", "isaacblock.SuffrageProof.IsValid / Prove", "util/fixedtree proofs", "util.BatchWork"},
+		Stub:        []string{"remote nodes: harness functions serving a real proof chain with latency and faulty answers", "block maps are signed base.DummyBlockMap"},
+		Rule:        "each run draws a remote history of 1-24 suffrage heights (thorough: 300-700 with the shipped batch size 333), a batch limit 1-8, a local state at a random height (or none), per-request latencies (arrival order inside a batch) and one kind of faulty answer or none: a proof of another height, missing, below the local state, from a foreign chain, an error, a duplicate of the neighbour, a forged sibling (valid child of the genuine predecessor, not the parent of the genuine successor). Build must end in an error or in a gap-free chain local+1..last in which every proof proves against its predecessor; any panic is a violation; a correct remote must not be refused. distinct = event-log hash",
 		Assumptions: []string{"the remote's last proof is honest (it is the anchor of the statement)"},
 	})
 }
